@@ -34,13 +34,15 @@ def compare(exp, got, kind):
         return "registers"
     if got["xcol"] != exp["xcol"]:
         return "column"
+    if kind == "WINDOW" and got["top"] != exp["top"]:
+        return "window"
     return None
 
 
 def run_script(ctx, sc):
     keys = b"".join(txt(s["keys"]).encode("utf-8", "surrogateescape") for s in sc["steps"])
     pre = b":se noai\n" if not sc.get("ai", 1) else b""
-    recs, rc, err, to, work = run_vi(ctx, ["-v"], pre + keys + b":q!\n", env_extra={"LINES": "24", "COLUMNS": "80"}, timeout=30)
+    recs, rc, err, to, work = run_vi(ctx, ["-v"], pre + keys + b":q!\n", env_extra={"LINES": str(sc.get("rows", 23) + 1), "COLUMNS": "80"}, timeout=30)
     shutil.rmtree(work, True)
     st = vi_states(recs)
     skip = 2 if pre else 1            # the record before any key, and the one after ":se noai"
@@ -50,7 +52,7 @@ def run_script(ctx, sc):
         if skip + i >= len(st):
             break
         g = st[skip + i]
-        f = compare(s["exp"], g, s["kind"])
+        f = compare(s["exp"], g, "WINDOW" if sc["profile"] == "scroll" else s["kind"])
         if not f and "push" in s and g["pushed"] != txt(s["push"]).encode("utf-8", "surrogateescape"):
             f = "pushed"        # the keys put back into the input queue by . / @
         res["checked"] = i + 1
@@ -73,8 +75,9 @@ def run_script(ctx, sc):
     return res
 
 
-def gen(ctx, profile, nscripts, nsteps, ai=1):
+def gen(ctx, profile, nscripts, nsteps, ai=1, rows=23):
     env, info = lib_env(ctx)
+    env = dict(env, ROWS=rows)
     per = max(1, (nscripts + NCPU - 1) // NCPU)
     jobs = [dict(SEED0=(ctx.seed * 1009 + k) % 30000 + 1, NSCRIPTS=min(per, nscripts - k), NSTEPS=nsteps, PROFILE=profile, AI=ai, **env)
             for k in range(0, nscripts, per)]
@@ -82,6 +85,7 @@ def gen(ctx, profile, nscripts, nsteps, ai=1):
     for job, path in gen_tables(ctx, jobs, module="Gen_Vi", timeout=2400):
         out += [json.loads(ln) for ln in open(path)]
     for sc in out:
+        sc["rows"] = rows
         # a queue that would feed the text of a failing change to the command loop is not generated: the script ends before the
         # repeat command that pushed it
         if sc["steps"] and sc["steps"][-1]["kind"] == "cut":
